@@ -6,7 +6,12 @@
    A world is: the tracker's registry, the requests written to the pipe and not read yet, the
    folders/files "of ours" on disk, and the manager's two dictionaries (_cached_temp_folders,
    _finalizers).  Contexts and files are numbers; their path names are [fold_name c] and
-   [file_name c f] (injective).  Events are fine grained so that "killed at any point" is
+   [file_name c f] (injective).  They stand for ABSOLUTE path names: the tracker is another process
+   and resolves a name with its own working directory, so a key denotes one place on disk only if
+   it is absolute (os.path.abspath in _get_temp_dir); the correspondence records every name the
+   real client hands to register/unregister/maybe_unlink and requires it to be absolute, also when
+   temp_folder / JOBLIB_TEMP_FOLDER is relative and the client has changed its cwd since the tracker
+   was started.  Events are fine grained so that "killed at any point" is
    "after any prefix of events"; every event also yields the list of externally observable
    [action]s it performs, IN THE ORDER the code performs them (this order is what the harness
    compares with the instrumented real calls).
